@@ -10,8 +10,8 @@
    (finding D17: the alphabet tables admit runes the encoder rejects).  The proofs
    check, inside the kernel, that the set of runes Validate admits is included in
    accepted-by-the-encoder U known-bad: one new bad code point breaks them. *)
-From V Require Import Model.Base Model.IntervalMap Gen.Charsets Model.Charset Gen.Detect Gen.KnownBad Model.Detect
-  Proofs.DetectProofs.
+From V Require Import Model.Base Model.IntervalMap Gen.Charsets Model.Charset Model.Splitter Model.Compose
+  Gen.Detect Gen.KnownBad Model.Detect Model.ComposePipeline Proofs.DetectProofs Proofs.ComposePipeline.
 Open Scope N_scope.
 
 (* FULL STATEMENT (false of the code, see the _refuted theorems below):
@@ -57,6 +57,13 @@ Theorem C09_compose : forall rs, Forall scalar rs ->
   exists bs, compose rs = Ok (dc_of_label (best rs), bs) /\ parse (dc_of_label (best rs), bs) = Ok rs.
 Proof. exact compose_parse. Qed.
 
+(* The generated Compose cases compare what the running code answered with [compose_obs_ok] - what C09 lets ANY
+   implementation answer (stored label = the detector's and octets = its encoder's output; a refusal for size only if
+   the text does not fit 140 octets by the splitter's estimate or by its encoded length; an encoder error only if the
+   encoder rejects the text).  The model [compose] the theorems above speak about is one such implementation: *)
+Theorem C09_compose_obs_model : forall rs, compose_obs_ok rs (compose rs) = true.
+Proof. exact compose_obs_model. Qed.
+
 (* Compose on a REUSED ShortMessage value m (filled in before by an earlier
    Compose or by decoding a PDU): either the text does not fit and m is left
    alone, or label and octets are both replaced and parse back to the text -
@@ -69,6 +76,32 @@ Theorem C09_compose_reused : forall m rs, Forall scalar rs ->
    parse (fst (compose_step m rs)) = Ok rs).
 Proof. exact compose_step_parse. Qed.
 
+(* The PIPELINE  text -> BestCoding -> ComposeMultipartShortMessage(text, detected coding, ref)  for texts of any length
+   (pipeline = Model/Compose.v's compose instantiated with the detected label, the splitter widths tabulated for every
+   scalar value and the label's encoder): it never fails for lack of an encoding (no encoder error, whatever the
+   length and wherever a segment boundary falls), never panics, and on success the parts are the encodings of
+   consecutive pieces of the text, each of which decodes back to its piece (GSM 7-bit: unless that piece is in the
+   8k-septets-ending-in-CR class).
+   FULL STATEMENT wanted in addition:  forall e, pipeline ref rs = Err e -> e = ECount  (the only refusal is "more than
+   254 parts").  Proved here: e <> EText and no Panic; MISSING: e <> ESize (needs "8 * octets <= width" for every
+   accepted scalar value between Gen/Charsets.v and the width_<c> tables of Gen/Detect.v, and the packed length of GSM
+   7-bit) and e <> EFuel (no width above 8*133) - both hold on every generated case (the cases compare the outcome). *)
+Theorem C09_pipeline_partial : forall ref rs, Forall scalar rs ->
+  (forall r, In r rs -> mem r (known_bad_of (best rs)) = false) ->
+  pipeline ref rs <> Err EText /\ pipeline ref rs <> Panic /\
+  forall parts, pipeline ref rs = Ok parts ->
+    exists segs, List.concat segs = rs /\
+      Forall2 (fun pt s => encode_l (best rs) s = Ok (pt_payload pt) /\
+                           ((best rs = LGsm7 -> g7_clear s) -> decode_l (best rs) (pt_payload pt) = Ok s)) parts segs.
+Proof. exact pipeline_best. Qed.
+Theorem C09_pipeline_safe_partial : forall ref rs, Forall scalar rs ->
+  pipeline_safe ref rs <> Err EText /\ pipeline_safe ref rs <> Panic /\
+  forall parts, pipeline_safe ref rs = Ok parts ->
+    exists segs, List.concat segs = rs /\
+      Forall2 (fun pt s => encode_l (best_safe rs) s = Ok (pt_payload pt) /\
+                           ((best_safe rs = LGsm7 -> g7_clear s) -> decode_l (best_safe rs) (pt_payload pt) = Ok s)) parts segs.
+Proof. exact pipeline_best_safe. Qed.
+
 (* the alphabet table of each coding of the priority list is inside the set its
    encoder accepts, up to the committed known-bad set *)
 Theorem C09_alphabets_included :
@@ -76,6 +109,13 @@ Theorem C09_alphabets_included :
   incl_check (LCs CCyrillic) = true /\ incl_check (LCs CHebrew) = true /\ incl_check (LCs CSjis) = true /\
   incl_check (LCs CEuckr) = true.
 Proof. exact (conj incl_gsm7 (conj incl_ascii (conj incl_latin1 (conj incl_cyrillic (conj incl_hebrew (conj incl_sjis incl_euckr)))))). Qed.
+
+(* ... and the exclusion is TIGHT: every rune of the committed known-bad set of a coding is admitted by that coding's
+   Validate table and rejected by its encoder (validate \ accept, not more).  A stale known/*.ranges file (after an
+   upstream repair) or an enlarged one breaks this theorem instead of silently weakening the ones above. *)
+Theorem C09_known_bad_tight : forall l r, mem r (known_bad_of l) = true ->
+  mem r (validate_ranges l) = true /\ mem r (accept_ranges l) = false.
+Proof. exact known_bad_tight. Qed.
 
 (* --- the unrestricted statement is false: witnesses, replayable on the code --- *)
 (* D17: U+0100 is labelled Latin-1, whose encoder rejects it *)
